@@ -30,6 +30,7 @@ INVARIANT_WHAT = {
     "NoneOnlyIfDown": "no replica chosen although one is available",
     "FiledOwnSoon": "aggregator filed a second into a bucket it does not insert within two seconds",
     "TickOwn": "aggregator handed a foreign second to its inserters",
+    "AddressedToMe": "aggregator took a bucket addressed to another shard replica",
 }
 
 
@@ -48,7 +49,7 @@ def run(ctx):
     for p in pts:
         kinds[p["a"]] = kinds.get(p["a"], 0) + 1
     ctx.log("grid: %s" % kinds)
-    for k in ("shard", "hash", "replica", "file", "tick", "config"):
+    for k in ("shard", "hash", "replica", "file", "tick", "config", "addr"):
         if not kinds.get(k):
             raise Infra("grid has no %s points" % k)
     shard_pts = [p for p in pts if p["a"] == "shard"]
@@ -56,14 +57,14 @@ def run(ctx):
     hash_pts = [p for p in pts if p["a"] == "hash"]
     if not th:  # quick: a seeded sample of the shard grid (thorough: all of it)
         rnd.shuffle(shard_pts)
-        shard_pts = shard_pts[:2500]
+        shard_pts = shard_pts[:1500]
     strip = lambda p, keep: [{k: p[k] for k in keep}]
     inp = [strip(p, ("a", "N", "S", "fk", "strat", "num", "fk2", "id", "hi", "lo", "ts")) for p in shard_pts] + \
           [strip(p, ("a", "N", "shn", "t", "alive")) for p in replica_pts]
     files = []
     # 2. S->I on the real code
     res, out, rc = ctx.go_test("internal/agent", "TestVerifC10Routing", inp=inp,
-                               env={"VERIF_NRANDOM": 20000 if th else 2500}, timeout=1500)
+                               env={"VERIF_NRANDOM": 8000 if th else 1500}, timeout=1500)
     res = ctx.need_result(res, out, rc, "TestVerifC10Routing")
     if rc != 0 or not res.get("files"):
         p = ctx.save("driver_routing.log", out[-20000:])
@@ -77,7 +78,7 @@ def run(ctx):
     n_routing, steps_routing = res["replayed"] + sum(v for k, v in res["counters"].items() if k.startswith("random")), res["steps"]
     samples = list(res.get("samples") or [])
     res, out, rc = ctx.go_test("internal/sharding", "TestVerifC10Hash", inp=[strip(p, ("a", "n", "hi", "lo")) for p in hash_pts],
-                               env={"VERIF_NRANDOM": 20000 if th else 2000}, timeout=600)
+                               env={"VERIF_NRANDOM": 6000 if th else 1000}, timeout=600)
     res = ctx.need_result(res, out, rc, "TestVerifC10Hash")
     if rc != 0 or not res.get("files"):
         p = ctx.save("driver_hash.log", out[-20000:])
@@ -110,16 +111,13 @@ def run(ctx):
     drift = [l for l in tv.printed if "DRIFT" in l]
     if tv.violated:
         keep = ctx.save("rejected_trace.ndjson", open(trace).read())
-        line = None
-        m = re.search(r"l = (\d+)", tv.cex or "")
-        # the violating state is the last one of the counterexample: its line is l - 1
-        ls = re.findall(r"\bl = (\d+)", tv.cex or "")
+        # every line is a successor of the initial state: the counterexample's second state names it
+        ls = [int(x) for x in re.findall(r"\bl = (\d+)", tv.cex or "") if int(x) > 0]
         witness = None
         if ls:
-            line = int(ls[-1]) - 1
             with open(trace) as f:
                 for i, t in enumerate(f, 1):
-                    if i == line:
+                    if i == ls[-1]:
                         witness = t.strip()
         wp = ctx.save("witness.json", witness or "")
         if tv.violated.startswith("invariant:"):
@@ -135,8 +133,8 @@ def run(ctx):
     total = [l for l in drift if "DRIFT_TOTAL" in l]
     ndrift = int(re.search(r"(\d+)", total[0].split(",")[1]).group(1)) if total else None
     if not tv.violated:
-        if ndrift is None:
-            raise Infra("trace validation did not report drift")
+        if ndrift is None or tv.distinct != nlines + 1:
+            raise Infra("trace validation incomplete: %s states for %d lines, drift %s" % (tv.distinct, nlines, ndrift))
         ctx.ev.set("drift_lines", ndrift)
         if ndrift:
             ctx.log("NOTE: %d lines differ from the transcription in Routing.tla while keeping the property: %s" % (ndrift, drift[:6]))
